@@ -15,7 +15,7 @@ import time
 from dv import core, trees
 from dv.core import cz, cnat, cbool, clist, copt, cpair
 
-HEADER = ("From DV Require Import Model.PyPrims Model.Tree Model.Heap Model.HeapOps Model.C03Bip Model.C03Model.\n"
+HEADER = ("From DV Require Import Model.PyPrims Model.Tree Model.Heap Model.HeapOps Model.C03Bip Model.C03BipObj Model.C03Model.\n"
           "From Coq Require Import ZArith List. Import ListNotations. Open Scope Z_scope.")
 
 UNIT = trees.UNIT
@@ -361,6 +361,77 @@ class Session:
             return "bipartition_encoding holds a Bipartition object that no edge of the tree carries"
         return None
 
+    def bip_objects(self):
+        """object level of the stored encoding (wave 7): every edge of the tree carries its OWN Bipartition object
+        and tree.bipartition_encoding holds exactly those objects, each once.  Identities are canonicalised (number
+        of first occurrence along the postorder edge walk; the objects stay alive - the tree holds them - while
+        they are numbered).  returns (dump, None or text)"""
+        t = self.tree
+        num = {}
+        edges = []
+        full = []
+        for n in t.postorder_node_iter():
+            b = n.edge._bipartition
+            if b is not None:
+                num.setdefault(id(b), len(num))
+            edges.append([getattr(n, "_dv_id", -1), None if b is None else num[id(b)]])
+            full.append([edges[-1][0], -1] if b is None else
+                        [edges[-1][0], num[id(b)], -1 if b._split_bitmask is None else b._split_bitmask,
+                         -1 if b._leafset_bitmask is None else b._leafset_bitmask,
+                         {None: 0, False: 1, True: 2}.get(b._is_rooted, 3)])
+        enc = [num.setdefault(id(b), len(num)) for b in (t.bipartition_encoding or [])]
+        dump = {"edges": full, "enc": enc}
+        seen = {}
+        for nid, k in edges:
+            if k is None:
+                return dump, "edge of node %s carries no Bipartition object" % nid
+            if k in seen:
+                return dump, ("the edges of nodes %s and %s carry ONE Bipartition object (a fresh encoding builds one "
+                              "per edge)" % (seen[k], nid))
+            seen[k] = nid
+        if len(set(enc)) != len(enc):
+            return dump, "bipartition_encoding lists one Bipartition object twice (object numbers %s)" % enc
+        if set(enc) != set(seen):
+            return dump, ("bipartition_encoding does not hold exactly the edges' Bipartition objects: edge objects %s, "
+                          "listed objects %s" % (sorted(seen), enc))
+        return dump, None
+
+    def bip_fresh(self, unordered=False):
+        """stored encoding = FRESH encoding (wave 7): (split_bitmask, leafset_bitmask, is_rooted) of every edge's
+        Bipartition in postorder, and of tree.bipartition_encoding in list order (unordered: as a multiset), against
+        encode_bipartitions (no structural flags) run on a deep copy of the tree as it is now.  returns None or text"""
+        t = self.tree
+        on = _STAMP["on"]
+        _STAMP["on"] = False          # the copy's nodes are not nodes of the session's heap
+        try:
+            fresh = t.clone(depth=1)
+            fresh.encode_bipartitions(suppress_unifurcations=False, collapse_unrooted_basal_bifurcation=False)
+        finally:
+            _STAMP["on"] = on
+
+        def sig(b):
+            return None if b is None else [b._split_bitmask, b._leafset_bitmask, b._is_rooted]
+        got_nodes = list(itertools.islice(t.postorder_node_iter(), MAXN))
+        want_nodes = list(itertools.islice(fresh.postorder_node_iter(), MAXN))
+        if len(got_nodes) != len(want_nodes) or fresh._is_rooted != t._is_rooted:
+            return None               # the copy is not the tree (copying is another property's business)
+        for g, w in zip(got_nodes, want_nodes):
+            if len(g._child_nodes) != len(w._child_nodes) or g.taxon is not w.taxon:
+                return None
+        for g, w in zip(got_nodes, want_nodes):
+            a, b = sig(g.edge._bipartition), sig(w.edge._bipartition)
+            if a != b:
+                return ("edge of node %s carries (split_bitmask, leafset_bitmask, is_rooted) = %s; a fresh encoding of "
+                        "the resulting tree (is_rooted %s) gives %s" % (getattr(g, "_dv_id", "?"), a, t._is_rooted, b))
+        got = [sig(b) for b in (t.bipartition_encoding or [])]
+        want = [sig(b) for b in fresh.bipartition_encoding]
+        if sorted(got, key=repr) != sorted(want, key=repr):
+            return ("bipartition_encoding holds (split_bitmask, leafset_bitmask, is_rooted) %s; a fresh encoding of the "
+                    "resulting tree (is_rooted %s) gives %s" % (got, t._is_rooted, want))
+        if got != want and not unordered:
+            return ("bipartition_encoding lists %s in this order; a fresh encoding lists %s" % (got, want))
+        return None
+
 
 # --------------------------------------------------------------------------------------------
 # label pools (namespaces in which several taxa answer to one label) and the taxa a label query designates
@@ -518,7 +589,19 @@ LABEL_KINDS = [
 ]
 
 
-def gen_op(rng, sess, spec, kinds=KINDS, allow_leaf_reseed=False):
+# wave 7: histories aimed at the stored-encoding clause: mostly operations that take update_bipartitions (asked for
+# with probability 0.85), between operations that change the rooting flag or leave unifurcations / polytomies behind
+UB_KINDS = [
+    ("ReseedAt", 5), ("RerootAtNode", 8), ("RerootAtEdge", 8), ("RerootAtMidpoint", 3), ("ToOutgroup", 5),
+    ("SuppressUnifurcations", 6), ("CollapseUnweighted", 3), ("ResolvePolytomies", 3), ("PruneSubtree", 4),
+    ("FilterLeafNodes", 2), ("PruneLeavesWithoutTaxa", 2), ("PruneNodes", 2), ("PruneTaxa", 3), ("RetainTaxa", 3),
+    ("RandomlyReorient", 2),
+    ("Encode", 5), ("SetRooted", 6), ("SetUnrooted", 1), ("Deroot", 1), ("NewChild", 3), ("RemoveChild", 3),
+    ("EdgeCollapse", 2), ("CollapseBasal", 1),
+]
+
+
+def gen_op(rng, sess, spec, kinds=KINDS, allow_leaf_reseed=False, p_ub=0.3):
     """one op with valid arguments for the current state (spec = current dump), or None"""
     nodes = trees.preorder(spec)
     ids = [n["id"] for n in nodes]
@@ -530,7 +613,7 @@ def gen_op(rng, sess, spec, kinds=KINDS, allow_leaf_reseed=False):
     internal_nonseed = [i for i in internal if pm[i] is not None]
     ntaxa = len(sess.taxa)
     k = rng.choices([a for a, _ in kinds], [w for _, w in kinds])[0]
-    ub = rng.random() < 0.3
+    ub = rng.random() < p_ub
     su = rng.random() < 0.6
     cb = rng.random() < 0.6
     if k == "ReseedAt":
@@ -557,7 +640,7 @@ def gen_op(rng, sess, spec, kinds=KINDS, allow_leaf_reseed=False):
             return None
         return [k, rng.choice(nonseed), ub, su]
     if k == "SuppressUnifurcations":
-        return [k, rng.random() < 0.5]
+        return [k, rng.random() < max(0.5, p_ub)]
     if k == "Deroot":
         return [k]
     if k in ("CollapseBasal", "PolytomizeRoot"):
@@ -682,7 +765,7 @@ def note_detached(sess, op, err, before, after):
             sess.detached.append(gone)
 
 
-def gen_history(rng, spec, rooted, ntaxa, nops, kinds=KINDS, allow_leaf_reseed=False, labels=None, cs=None):
+def gen_history(rng, spec, rooted, ntaxa, nops, kinds=KINDS, allow_leaf_reseed=False, labels=None, cs=None, p_ub=0.3):
     """runs the real library to draw arguments from the live state; returns the concrete op list"""
     sess = Session(spec, rooted, ntaxa, labels=labels, cs=cs)
     ops = []
@@ -691,7 +774,7 @@ def gen_history(rng, spec, rooted, ntaxa, nops, kinds=KINDS, allow_leaf_reseed=F
         tries = 0
         while len(ops) < nops and tries < nops * 6:
             tries += 1
-            op = gen_op(rng, sess, cur, kinds, allow_leaf_reseed)
+            op = gen_op(rng, sess, cur, kinds, allow_leaf_reseed, p_ub)
             if op is None:
                 continue
             err = None
@@ -755,6 +838,25 @@ def observe(case):
                     snap["bip"] = "bipartition check raised %s" % type(e).__name__
                 if not (op[0] == "PruneNodes" and not op[2] and not library_variant()[1]):   # flag ignored there before the repair
                     snap["enc"] = sess.enc_dump()
+                skip = op[0] == "PruneNodes" and not op[2] and not library_variant()[1]
+                if not snap["bip"] and not skip:
+                    try:
+                        snap["bipobj"], snap["bipalias"] = sess.bip_objects()
+                    except Exception as e:
+                        snap["bipalias"] = "object walk raised %s" % type(e).__name__
+                    try:
+                        # randomly_reorient re-draws the child orders AFTER the encoding (to_outgroup_position, then
+                        # randomly_rotate): same objects and values, listed in the postorder of the tree before the
+                        # rotation - the list is compared as a multiset there (observation, reported; not a finding)
+                        snap["bipfresh"] = sess.bip_fresh(unordered=(op[0] == "RandomlyReorient"))
+                    except Exception as e:
+                        snap["bipfresh"] = "fresh encoding of a copy raised %s: %s" % (type(e).__name__, str(e)[:80])
+            elif err is None and op[0] == "Encode" and snap["tree"] is not None and not snap["problems"]:
+                # the encoding operation itself: object level only (it IS the fresh encoding)
+                try:
+                    snap["bipobj"], snap["bipalias"] = sess.bip_objects()
+                except Exception as e:
+                    snap["bipalias"] = "object walk raised %s" % type(e).__name__
             out.append(snap)
             if snap["tree"] is None or snap["problems"]:
                 break
@@ -963,7 +1065,9 @@ def oracle_extract(op, snap, before, labels, cs, where):
 def oracle_steps(case, obs, probe_key=None):
     before = case["init"]
     labels, cs = case_labels(case)
+    flag_after = case["rooted"]
     for step, (op, snap) in enumerate(zip(case["ops"], obs)):
+        flag_before, flag_after = flag_after, snap.get("rooted")
         name = op[0]
         lop = op
         op = equiv_op(op, labels, cs)      # label-based selectors are judged as the taxon-based op on the designated taxa
@@ -1037,6 +1141,12 @@ def oracle_steps(case, obs, probe_key=None):
                 return ("%s prune_nodes(prune_leaves_without_taxa=False) ignores update_bipartitions=True: %s"
                         % (where, snap["bip"]), "prune_nodes-ignores-update_bipartitions:%s-stale-masks" % outcome_tag(snap))
             return ("%s update_bipartitions=True: %s" % (where, snap["bip"]), "bipartitions-stale:" + key)
+        if snap.get("bipalias"):
+            return ("%s %s: %s" % (where, "encode_bipartitions" if name == "Encode" else "update_bipartitions=True",
+                                   snap["bipalias"]), "bipartition-object-shared:" + key)
+        if snap.get("bipfresh"):
+            return ("%s update_bipartitions=True (is_rooted before the call: %s): %s" % (where, flag_before, snap["bipfresh"]),
+                    "bipartitions-not-fresh:" + key)
         before = after
     return None
 
@@ -1229,10 +1339,12 @@ def c_case(case, obs):
         c_enc = "None" if enc is None else "(Some [%s])" % ";".join("(%d,%d)" % (a, b) if a >= 0 else "((%d),%d)" % (a, b)
                                                                     for a, b in enc)
         incr = op[0] == "SuppressUnifurcations" and len(op) > 1 and bool(op[1])
-        steps.append("(mkStep %s %s %s %s %s %s)" % (c_op(op, snap["aux"], case["ntaxa"]),
-                                                     "None" if snap["err"] is None else "(Some %s)" % snap["err"],
-                                                     zflat(enc_tree(snap["tree"])), ob(snap["rooted"]),
-                                                     cbool(incr), c_enc))
+        bo = snap.get("bipobj")
+        c_obj = "None" if bo is None else "(Some ([%s], %s))" % (";".join(zflat(e) for e in bo["edges"]), zflat(bo["enc"]))
+        steps.append("(mkStep %s %s %s %s %s %s %s)" % (c_op(op, snap["aux"], case["ntaxa"]),
+                                                        "None" if snap["err"] is None else "(Some %s)" % snap["err"],
+                                                        zflat(enc_tree(snap["tree"])), ob(snap["rooted"]),
+                                                        cbool(incr), c_enc, c_obj))
     g, tl, ogf = library_variant()
     return "(mkCase (mkVariants %s %s %s) %s %s %s)" % (cbool(g), cbool(tl), cbool(ogf), trees.c_tree(case["init"]),
                                                        ob(case["rooted"]), clist(steps))
@@ -1276,6 +1388,17 @@ def random_case(rng, max_leaves, max_ops, label_pool=None):
     return gen_history(rng, spec, rooted, ntaxa, rng.randint(1, max_ops), allow_leaf_reseed=rng.random() < 0.33)
 
 
+def ub_case(rng, max_leaves=8, max_ops=4, rooted=Ellipsis):
+    """wave 7: a short history of mostly update_bipartitions=True operations (see UB_KINDS) from a tree in each of
+    the three rooting states; unifurcations in half of the starting trees"""
+    n = rng.randint(2, max_leaves)
+    spec = trees.gen_tree(rng, n, lengths=rng.choice(["dyadic", "int", "unit", "positive"]),
+                          unifurcations=rng.choice([0.0, 0.2]), internal_labels=0.0)
+    if rooted is Ellipsis:
+        rooted = rng.choice([None, True, False])
+    return gen_history(rng, spec, rooted, n + rng.randint(0, 1), rng.randint(1, max_ops), kinds=UB_KINDS, p_ub=0.85)
+
+
 def probe_cases():
     """operations outside the guarded domain, exercised separately and judged by the oracle alone"""
     out = []
@@ -1310,7 +1433,7 @@ def alphabet(spec, ntaxa, detached):
     by = {n["id"]: n for n in nodes}
     internal = [i for i in ids if by[i]["kids"]]
     ops = [["SuppressUnifurcations", False], ["SuppressUnifurcations", True], ["Deroot"], ["Ladderize", True], ["Ladderize", False], ["Reorder", False],
-           ["Encode", True, True], ["CollapseUnweighted", 512, False], ["ResolvePolytomies", 2, None, False],
+           ["Encode", True, True], ["Encode", False, False], ["CollapseUnweighted", 512, False], ["ResolvePolytomies", 2, None, False],
            ["ResolvePolytomies", 2, 7, False], ["PruneLeavesWithoutTaxa", True, False, True],
            ["RandomlyRotate", 3], ["RandomlyReorient", 5, False], ["ShuffleTaxa", False, 11], ["SetRooted", True],
            ["SetRooted", False], ["PolytomizeRoot", True]]
@@ -1322,12 +1445,14 @@ def alphabet(spec, ntaxa, detached):
             ops.append(["ReseedAt", i, False, True, True])
             ops.append(["ReseedAt", i, False, False, False])
             ops.append(["RerootAtNode", i, False, True, True])
+            ops.append(["RerootAtNode", i, True, False, False])
             ops.append(["EdgeCollapse", i, False])
             ops.append(["CollapseClade", i])
         ops.append(["NewChild", i, None, None, 1024])
         if pm[i] is not None:
             ops.append(["ToOutgroup", i, False, True])
             ops.append(["RerootAtEdge", i, 512, 512, False, True])
+            ops.append(["RerootAtEdge", i, 512, 512, True, False])
             ops.append(["PruneSubtree", i, False, True])
             ops.append(["PruneSubtree", i, True, False])
             ops.append(["RemoveChild", pm[i], i, True])
@@ -1395,7 +1520,7 @@ def search(ctx, budget_s):
     rng = random.Random(ctx.seed + 77)
     n = 0
     while time.time() - t0 < budget_s and n < 20000:
-        case = random_case(rng, 12, 12, label_pool=(n % 3 == 1) or None)
+        case = ub_case(rng) if n % 4 == 2 else random_case(rng, 12, 12, label_pool=(n % 3 == 1) or None)
         obs = observe(case)
         v = oracle(case, obs)
         n += 1
@@ -1441,11 +1566,13 @@ def run(tier, seed, replay=None):
     if tier == "quick":
         cases += [random_case(ctx.rng, 9, 8) for _ in range(550)]
         cases += [random_case(ctx.rng, 30, 25) for _ in range(50)]
+        cases += [ub_case(ctx.rng, rooted=(None, True, False)[i % 3]) for i in range(150)]
         small = list(small_scope_cases(3, 2, ctx.rng, per_state=None))
         cases += ctx.rng.sample(small, 800)
     else:
         cases += [random_case(ctx.rng, 10, 10) for _ in range(4000)]
         cases += [random_case(ctx.rng, 30, 25) for _ in range(500)]
+        cases += [ub_case(ctx.rng, 10, 6, rooted=(None, True, False)[i % 3]) for i in range(3000)]
         cases += list(small_scope_cases(4, 2, ctx.rng, per_state=None))
         cases += [c for c in small_scope_cases(5, 2, ctx.rng, per_state=9) if len(trees.leaves(c["init"])) == 5]
         cases += list(small_scope_cases(3, 3, ctx.rng, per_state=11))
